@@ -18,6 +18,30 @@ CLAIMED = {
     ),
 }
 
+CLAIMED.update({
+    "C08": (
+        "constant evaluation of the operator table + closed-form (TERM) comparison of the precedence-climbing functions + scanner lexeme table",
+        "Decides, for chains of any length, the three facts from which grouping follows (table = published ranks; stop iff rank<minPrec; right operand at rank+1, continuation keeps minPrec and routes cur/rhs in order), "
+        "the lexeme->token->Go-operator chain, operand layering (application > not > binary, parentheses re-enter at 1) and that emission always parenthesises. A structural necessary-and-sufficient condition relative to the standard precedence-climbing theorem.",
+        "Trusts the precedence-climbing theorem; a behaviour-preserving rewrite of the analysed functions into a different closed form is reported as undecided (fails).",
+        "DESIGN.md §3 C08",
+    ),
+    "C10": (
+        "closed-form (TERM) analysis of frt.OpEqual's go-cmp configuration and of the compiler's routing of = and <>",
+        "Totality of equality on all first-order values is a matter of go-cmp configuration visible in the code: accept-all Exporter (no panic on lower-case record fields), EquateEmpty (nil = empty slice), "
+        "no option that can break equivalence, OpNotEqual = not OpEqual, = / <> routed to them with both operands typed alike. Decided for all values at once.",
+        "Trusts go-cmp v0.6.0's Equal (reflexive/symmetric/transitive structural equality under these options).",
+        "DESIGN.md §3 C10",
+    ),
+    "C14": (
+        "closed-form (TERM) comparison of every thin wrapper with its specification term; loop normal forms for the six loops; reflect kind/accessor compatibility in toS",
+        "Each helper is a thin wrapper, so its canonical closed form over its parameters is its behaviour relative to the Go standard library, for all inputs and histories: argument routing of the curried strings wrappers, "
+        "comma-ok dict lookups on the same map/key, one append per map entry in Keys/Values/KVs, in-order ToDict, tuple field routing, branch polarity and exactly-once thunk calls of IfElse*, formatting argument order, toS accessor/kind compatibility.",
+        "Trusts Go maps, strings, bytes.Buffer, fmt and reflect. A rewritten wrapper with a different closed form is undecided (fails).",
+        "DESIGN.md §3 C14",
+    ),
+})
+
 NOT_APPLICABLE = {
 }
 
